@@ -168,8 +168,18 @@ func init() {
 		for i := 1; i+1 < len(a); i += 2 {
 			c01Write(filepath.Join(d, filepath.FromSlash(a[i])), unhex(a[i+1]))
 		}
+		// ONE options value for both runs: the caller's options are an input and must come back unchanged (a dump that
+		// writes e.g. the detected catalog layout into them changes what the next dump with the same options does)
+		opts := c01Opts(a[0])
 		run := func() string {
-			res, err := pgdump.DumpDataDir(d, c01Opts(a[0]))
+			var before pgdump.Options
+			if opts != nil {
+				before = *opts
+			}
+			res, err := pgdump.DumpDataDir(d, opts)
+			if opts != nil && *opts != before {
+				return "MUTATED-OPTIONS"
+			}
 			if err != nil || res == nil {
 				return "err"
 			}
@@ -206,8 +216,16 @@ func init() {
 		}
 		return withBuf(a[2], a[3], func(classData []byte) string {
 			return withBuf(a[4], a[5], func(attrData []byte) string {
+				opts := c01Opts(a[0])
 				run := func() string {
-					d, err := pgdump.DumpDatabaseFromFiles(classData, attrData, reader, c01Opts(a[0]))
+					var before pgdump.Options
+					if opts != nil {
+						before = *opts
+					}
+					d, err := pgdump.DumpDatabaseFromFiles(classData, attrData, reader, opts)
+					if opts != nil && *opts != before {
+						return "MUTATED-OPTIONS"
+					}
 					if err != nil || d == nil {
 						return "err"
 					}
